@@ -195,3 +195,67 @@ func ZZ_C20_ValidatedConfigStarts() {
 	}()
 	vx.Assert("validated configuration starts without a crash", !crashed)
 }
+
+// Translator validation of the govalidator stub: the accept/reject verdict of
+// the real Config.Validate (native run, real govalidator) must equal the
+// engine's verdict (stub) for the baseline, every single deviation and every
+// pair of deviations.
+//
+//gosx:property=C20 tier=quick
+func ZZV_C20_ValidateVerdicts() {
+	if vx.Symbolic() {
+		govalidator.TagMap = map[string]govalidator.Validator{}
+	}
+	verdict := func(cfg *factory.Config) string {
+		_, err := cfg.Validate()
+		if err != nil {
+			return "rejected"
+		}
+		return "accepted"
+	}
+	vx.Emit("baseline " + verdict(zzBaseline()))
+	for d1 := 0; d1 < zzNDev; d1++ {
+		for _, sub := range []int{0, 1, 2} {
+			cfg := zzBaseline()
+			zzDeviateN(cfg, d1, sub)
+			vx.Emit("dev " + string(rune('a'+d1)) + string(rune('0'+sub)) + " " + verdict(cfg))
+		}
+		for d2 := d1 + 1; d2 < zzNDev; d2++ {
+			cfg := zzBaseline()
+			zzDeviateN(cfg, d1, 0)
+			if cfg.Configuration == nil {
+				continue
+			}
+			c := cfg.Configuration
+			ok := true
+			switch d2 {
+			case 8, 10, 11:
+				ok = c.Sbi != nil
+			case 12:
+				ok = c.RfDiameter != nil
+			case 13:
+				ok = c.AbmfDiameter != nil
+			case 14, 16:
+				ok = c.Cgf != nil
+			}
+			if !ok {
+				continue
+			}
+			zzDeviateN(cfg, d2, 0)
+			vx.Emit("pair " + string(rune('a'+d1)) + string(rune('a'+d2)) + " " + verdict(cfg))
+		}
+	}
+}
+
+// zzDeviateN is zzDeviate with the inner alternative chosen concretely.
+func zzDeviateN(cfg *factory.Config, d, sub int) {
+	c := cfg.Configuration
+	switch d {
+	case 8:
+		c.Sbi.Scheme = []string{"ftp", "", "HTTPS"}[sub]
+	case 9:
+		c.ServiceNameList = [][]string{{"nchf-unknown"}, {"nchf-convergedcharging", "nchf-convergedchargin"}, {""}}[sub]
+	default:
+		zzDeviate(cfg, d)
+	}
+}
